@@ -136,8 +136,14 @@ class Family:
 
     def source_feats(self, pl, members=None) -> dict:
         fs = list(members) if members is not None else list(pl.functions)
+        try:
+            roots = sorted(pl.topological_generations.root_args)
+        except Exception:  # noqa: BLE001
+            roots = []
         return {"tuple_in_source": any(isinstance(f.output_name, tuple) for f in pl.functions),
                 "bound_in_source": any(bool(f.bound) for f in fs),
+                "bound_names": sorted({p for f in fs for p in f.bound}), "roots_before": roots,
+                "scoped_params_in_source": any("." in p for f in fs for p in f.parameters),
                 "merged_source": any(type(f).__name__ == "NestedPipeFunc" for f in pl.functions),
                 "mapspec_in_source": bool(pl.mapspecs())}
 
@@ -184,6 +190,9 @@ class Family:
             e["struct"] = [self.struct(self.objs[i].pl) for i in ids]
         except Exception as ex:  # noqa: BLE001   (e.g. a cyclic graph after a rewrite)
             e["struct"] = [{"outs": ["#exc:" + type(ex).__name__], "roots": []} for _ in ids]
+        f = e["_feats"]
+        extra = {r for st in e["struct"] for r in st["roots"]} - set(f["roots_before"])
+        f["new_roots_all_bound"] = bool(extra) and extra <= set(f["bound_names"])
 
     def _derive(self, src: int, pl, kind: str, **feats) -> int:
         o = self.objs[src]
@@ -447,6 +456,39 @@ def _funcs_sorted(pl) -> list:
     return sorted(pl.functions, key=out_key)
 
 
+def combinable_outputs(pl) -> list[str]:
+    """Outputs from which simplified_pipeline has something to combine (a function with a predecessor that has the same
+    root arguments) - used to pick interesting requests, never to judge them."""
+    import networkx as nx
+    from pipefunc import PipeFunc
+    try:
+        g, ra = pl.graph, pl.all_root_args
+        hit = set()
+        for h in pl.functions:
+            if any(isinstance(j, PipeFunc) and ra[j.output_name] == ra[h.output_name] for j in g.predecessors(h)):
+                hit |= {h} | {d for d in nx.descendants(g, h) if isinstance(d, PipeFunc)}
+        return sorted(n for f in hit for n in ([f.output_name] if isinstance(f.output_name, str) else f.output_name))
+    except Exception:  # noqa: BLE001
+        return []
+
+
+def chainify(rng: random.Random, tdesc: dict) -> dict:
+    """Make a random description chain-like (some functions consume only earlier outputs / one shared root), so that
+    nest_funcs and simplified_pipeline find something to merge."""
+    funcs = tdesc["funcs"]
+    outs_before: list[str] = []
+    for f in funcs:
+        if outs_before and rng.random() < 0.6:
+            keep = [p for p in f["params"] if p in outs_before][:1] or [rng.choice(outs_before)]
+            if rng.random() < 0.4:
+                keep.append(rng.choice(["x", "y"]))
+            f["params"] = list(dict.fromkeys(keep))
+            f["defaults"] = [d for d in f["defaults"] if d[0] in f["params"]]
+            f["bound"] = [b for b in f["bound"] if b[0] in f["params"]]
+        outs_before += f["outputs"]
+    return tdesc
+
+
 def gen_nest(pl, rng: random.Random) -> dict | None:
     import networkx as nx
     from pipefunc import PipeFunc
@@ -556,7 +598,9 @@ def gen_op(fam: Family, rng: random.Random, counter: list[int], *, mutation: boo
         g = gen_nest(pl, rng)
         return [dict(g, src=src)] if g else [{"op": "copy", "src": src}]
     if kind == "simplified":
-        return [{"op": "simplified", "src": src, "out": rng.choice(outs)}] if outs else []
+        good = combinable_outputs(pl)
+        pool = good if good and rng.random() < 0.8 else outs
+        return [{"op": "simplified", "src": src, "out": rng.choice(pool)}] if pool else []
     if kind == "add_mapspec_axis":
         cand = [r for r in roots if r not in msnames and fam.value_for(o, r)["f"] != "#arr"]
         if not cand:
@@ -614,6 +658,8 @@ def run_family(job: dict) -> dict:
     fam = Family()
     if job["mode"] == "call":
         tdesc = c02.random_desc(rng, rng.randint(2, job["maxfuncs"]))
+        if rng.random() < 0.4:
+            tdesc = chainify(rng, tdesc)
         fam.do({"op": "new", "tdesc": tdesc, "pdesc": pcall.tla_desc_to_py(tdesc), "inputs": [], "kinds": {}})
     else:
         case = gen_map.random_map_case(rng, rng.randint(1, 3), max_rank=2, max_size=2)
@@ -669,9 +715,12 @@ def classify(tr: dict, reached: int) -> tuple[dict, str]:
     what = ""
     if e["e"] in ("rewrite", "refuse"):
         f = e.get("_feats", {})
-        sig.update({k: f.get(k, False) for k in ("tuple_in_source", "bound_in_source", "merged_source", "mapspec_in_source")})
+        sig.update({k: f.get(k, False) for k in ("tuple_in_source", "bound_in_source", "merged_source", "mapspec_in_source",
+                                                  "scoped_params_in_source")})
         if e["kind"] in ("nest", "simplified"):
             sig["merged_tuple_leaf"] = f.get("merged_tuple_leaf", False)
+        if e["e"] == "rewrite":
+            sig["new_roots_all_bound"] = f.get("new_roots_all_bound", False)
         if e["e"] == "refuse":
             what = (f"{e['kind']} refused with {e['exc']} ({e['val']['f'][5:]}) although the model requires it to succeed "
                     f"on this pipeline")
@@ -708,10 +757,12 @@ def classify(tr: dict, reached: int) -> tuple[dict, str]:
                     "target_of_last_op": tgt_of_last,
                     "aliasing": (not tgt_of_last) and prev_ok,
                     "via_merge": any(k in ("nest", "simplified") for k in lin),
+                    "renamed_after_merge": any(k in ("update_renames", "update_scope", "remove_scope") and
+                                               any(m in ("nest", "simplified") for m in lin[j + 1:]) for j, k in enumerate(lin)),
+                    "bound_after_pickle": any(k == "update_bound" and "pickle" in lin[j + 1:] for j, k in enumerate(lin)),
                     "via_axis": "add_mapspec_axis" in lin, "via_pickle": "pickle" in lin,
                     "merged_tuple_leaf": feats["merged_tuple_leaf"], "bound_in_merged": feats["bound"],
-                    "tuple_in_source": feats["tuple"], "mutated": feats["mutated"],
-                    "roots_only": False})
+                    "tuple_in_source": feats["tuple"], "mutated": feats["mutated"]})
         what = (f"object {oid} (history {list(reversed(lin))}) evaluated {e['out'] or 'map'} with {dict((k, '..') for k, _ in e['inputs'])}: "
                 f"{'raised ' + e['exc'] + ' ' + e.get('_msg', '') if e['exc'] else 'value differs from EvalObs of its entry'}"
                 f"{'; the object was not the target of the last operation (' + sig['last_kind'] + ')' if sig['aliasing'] else ''}")
